@@ -6,11 +6,11 @@ from .xyb import check_c04
 
 def run(tier):
     ck = Check('C04', tier, 'proof', 'abstract interpretation of MIR (cbrtf kept as an application); exact rational comparison of the extracted opsin rows with libjxl; relative-error analysis of the non-negative mixes; Lipschitz bound of the cube root')
-    for b in (('K1',) if tier == 'quick' else ('K1', 'K2')):
+    for b in ('K1', 'K2'):          # default and FMA build (the opsin code has its own fused multiply-adds)
         try:
             check_c04(ck, Ctx(b), b, tier)
         except Unsupported as ex:
             ck.ob(f"C04/{b}", 'UNDECIDED', f"analysis lost: {ex}")
-    ck.floor('kernels', 1)
-    ck.assumptions += ['A-cbrt: yuvxyb_math::cbrtf is within 1 ulp of the cube root on normal arguments (the accuracy clause of C18, not decided statically)']
+    ck.floor('kernels', 2)
+    ck.assumptions += ['A-cbrt: yuvxyb_math::cbrtf is within 1 ulp of the cube root on normal arguments (the accuracy clause of C18)']
     return ck.finish()
